@@ -11,8 +11,9 @@ namespace plan
     if (c < 0)
       return;
     ctor_params(m, m.classes[c].super, out);
-    for (auto &f : m.classes[c].rfields)
-      out.push_back({"real", "p_" + f});
+    for (size_t i = 0; i < m.classes[c].rfields.size(); ++i)
+      if (m.classes[c].rmode(i) != 2)
+        out.push_back({"real", "p_" + m.classes[c].rfields[i]});
     if (m.classes[c].ofield_class >= 0)
       out.push_back({m.classes[m.classes[c].ofield_class].name, "p_g" + std::to_string(c)});
     if (m.classes[c].ofield_class >= 0 && m.classes[c].ofield_twice)
@@ -26,7 +27,8 @@ namespace plan
     for (size_t i = 0; i < m.classes[c].rfields.size(); ++i)
     {
       const mpq_class &v = in.rargs[ri++];
-      out.push_back((sgn(v) < 0 ? "-" : "") + qtext(v));
+      if (m.classes[c].rmode(i) != 2)
+        out.push_back((sgn(v) < 0 ? "-" : "") + qtext(v));
     }
     if (m.classes[c].ofield_class >= 0)
       out.push_back(m.insts[in.oargs[oi++]].name);
@@ -489,8 +491,8 @@ namespace plan
         continue;
       }
       d += "class " + c.name + (c.super >= 0 ? " : " + m.classes[c.super].name + (c.super2 >= 0 ? ", " + m.classes[c.super2].name : "") : (c.super2 >= 0 ? " : " + m.classes[c.super2].name : "")) + " {\n";
-      for (auto &f : c.rfields)
-        d += "  real " + f + ";\n";
+      for (size_t i = 0; i < c.rfields.size(); ++i)
+        d += "  real " + c.rfields[i] + (c.rmode(i) ? " = " + qtext(c.rfield_default(i)) : std::string()) + ";\n";
       if (c.ofield_class >= 0)
         d += "  " + m.classes[c.ofield_class].name + " g" + std::to_string(ci) + ";\n";
       if (c.ofield_class >= 0 && c.ofield_twice)
@@ -512,8 +514,9 @@ namespace plan
           il += (i ? ", " : "") + sps[i].second;
         il += ")";
       }
-      for (auto &f : c.rfields)
-        il += (il.empty() ? "" : ", ") + f + "(p_" + f + ")";
+      for (size_t i = 0; i < c.rfields.size(); ++i)
+        if (c.rmode(i) != 2)
+          il += (il.empty() ? "" : ", ") + c.rfields[i] + "(p_" + c.rfields[i] + ")";
       if (c.ofield_class >= 0)
         il += (il.empty() ? "" : ", ") + std::string("g") + std::to_string(ci) + "(p_g" + std::to_string(ci) + ")";
       if (c.ofield_class >= 0 && c.ofield_twice)
